@@ -1,24 +1,26 @@
 /-
 C01 — Benchmark records survive a write/read round trip.
-Property theorems (helpers are in Proofs/Lemmas/C01*.lean; the reader model and its refinement
-theorem come from C02).
+Property theorems (helpers are in Proofs/Lemmas/C01*.lean). The reader is C02's MODEL reader
+(`Model/Fmt/Reader.lean`: `scanLine`, `readLines`, `readAll`, the slot store of `Result.lean`);
+of C02's proofs only the slot-store lemmas (`C02Store.lean`) are used.
 
 Vocabulary
 * `Writer.writeAll P h`   the lines the model writer prints for history `h`; `render` = the bytes
-* `readAll O fn text`     the C02 model reader (all records `Scan` delivers)
+* `readAll O fn text`     everything `NewReader(text, fn)` delivers
 * `observe`, `WF`, …      `Model/Spec/RoundTrip.lean`
 * `Obs.abs`               an observation with its file map read as a function (two `Config` lists
                           that denote the same map are the same observation)
-* `NumOK O P`             the one hypothesis on number text: printing then parsing gives the number
-                          back and a printed number is one field (`%v`/`atof`, `%d`/`Atoi`)
+* `NumOKFor O P h`        the one hypothesis on number text, for the numbers occurring in `h`:
+                          printing then parsing gives the number back (NaNs identified) and a
+                          printed number is one field (`%v`/`atof`, `%d`/`Atoi`)
 -/
 import Model.Fmt.Writer
 import Model.Spec.RoundTrip
-import Proofs.C02
-import Proofs.Lemmas.C01Clean
+import Proofs.Lemmas.C01ReaderWF
+import Proofs.Lemmas.C01Num
 
 namespace C01
-open Fmt Spec.Format Spec.RoundTrip
+open Fmt Spec.RoundTrip Spec.FmtFloat
 
 /-! ## 1. The writer state tracks the configuration (no assumption on any reader) -/
 
@@ -37,7 +39,7 @@ theorem writer_state_tracks_config (P : WParams) (w : WState) (r : Res) (hw : WI
   simp only [Writer.write, writeResult]
   by_cases hneed : needFileConfig w.fileConfig r.config = true
   · simp only [hneed, ↓reduceIte]
-    obtain ⟨hfc, hw', _⟩ := writeFileConfig_spec anyOracles [] w r.config hw hnd
+    obtain ⟨hfc, hw', _⟩ := writeFileConfig_spec anyOracles w r.config hw hnd
     exact ⟨hfc, winv_first hw' false⟩
   · have hneed' : needFileConfig w.fileConfig r.config = false := by simpa using hneed
     simp only [hneed', Bool.false_eq_true, ↓reduceIte]
@@ -79,87 +81,79 @@ theorem writer_state_tracks_config_history (P : WParams) (h : List Rec) (r : Res
 
 /-! ## 2. Writer and reader in step -/
 
-theorem finalState_runLines (O : Oracles) (ls : List Bytes) :
-    ∀ (st : RState) (m : CMap), Linked st m →
-      Linked (finalState O st ls) (runLines O st.fileName m st.units (st.line + 1) ls).1 := by
-  induction ls with
-  | nil => intro st m hl; exact hl
-  | cons l ls ih =>
-    intro st m hl
-    obtain ⟨hl', hu, hf, hn, _⟩ := scanLine_refines O st m hl l
-    have := ih (scanLine O st l).1 _ hl'
-    rw [hu, hf, hn] at this
-    simpa [finalState, runLines] using this
-
 theorem wf_recs {O : Oracles} {h : List Rec} (hwf : WFnoCR O h = true) :
     (∀ r ∈ h, recOKnoCR O r = true) ∧ distinctPairs (unitKeys h) = true := by
   simp only [WFnoCR, Bool.and_eq_true, List.all_eq_true] at hwf
   exact hwf
 
-theorem wf_good {O : Oracles} {P : WParams} (hnum : NumOK O P) (fn : Bytes) {h : List Rec}
-    (hwf : WFnoCR O h = true) : (∀ r ∈ h, RecGood O P fn r) ∧ UnitsFresh [] h :=
-  ⟨fun r hr => recGood_of_ok O P fn hnum r ((wf_recs hwf).1 r hr),
+theorem wf_good {O : Oracles} {P : WParams} {h : List Rec} (hnum : NumOKFor O P h)
+    (hwf : WFnoCR O h = true) : (∀ r ∈ h, RecGood O P r) ∧ UnitsFresh [] h :=
+  ⟨fun r hr => recGood_of_ok O P r (fun res e => hnum res (e ▸ hr)) ((wf_recs hwf).1 r hr),
    unitsFresh_of_distinct h [] (fun _ _ => rfl) (wf_recs hwf).2⟩
 
-/-- **writer_reader_inv.** For every well-formed history `h` (hence for every prefix of a
-history): when the C02 model reader has consumed the lines the writer printed for `h`, its
-configuration store satisfies the C02 store invariant and denotes exactly the FILE part of the
-writer's `fileConfig` — reader's map = { k ↦ v | fileConfig k = (v, File = true) } — while
-`fileConfig`, with both kinds of entries, is the configuration of the last result
+/-- the state of `NewReader` before the first line -/
+def st0 (fn : Bytes) : RState := RState.zero.reset fn []
+
+theorem st0_store (fn : Bytes) : (st0 fn).store = Store.empty.reset := rfl
+theorem st0_units (fn : Bytes) : (st0 fn).units = [] := rfl
+
+/-- **writer_reader_inv.** For every history `h` satisfying `WFnoCR` (hence for every prefix of
+a history): when the model reader has consumed the lines the writer printed for `h`, its slot
+store satisfies the store invariant of C02 and denotes exactly the FILE part of the writer's
+`fileConfig` — reader's map = { k ↦ v | fileConfig k = (v, File = true) } — while `fileConfig`,
+with both kinds of entries, is the configuration of the last result
 (`writer_state_tracks_config_history`) and `order` lists its keys once each. The CR clause of
 `WF` is not needed at the level of lines. -/
-theorem writer_reader_inv (O : Oracles) (P : WParams) (hnum : NumOK O P) (fn : Bytes) (h : List Rec)
-    (hwf : WFnoCR O h = true) :
+theorem writer_reader_inv (O : Oracles) (P : WParams) (fn : Bytes) (h : List Rec)
+    (hnum : NumOKFor O P h) (hwf : WFnoCR O h = true) :
     let w := Writer.stateAfter P WState.new h
-    let st := finalState O (RState.zero.reset fn []) (Writer.writeAll P h)
+    let st := finalState O (st0 fn) (Writer.writeAll P h)
     WInv w ∧ st.store.Inv ∧ ∀ k, st.store.toMap k = fileOnly (w.fileConfig.get k) := by
-  obtain ⟨hgood, hfresh⟩ := wf_good hnum (RState.zero.reset fn []).fileName hwf
-  have hi := history_inv O P (RState.zero.reset fn []).fileName h WState.new [] [] 1
-    (inv_new O _) hgood hfresh
-  have hl := finalState_runLines O (Writer.writeAll P h) (RState.zero.reset fn []) []
-    (reset_linked RState.zero fn [])
-  refine ⟨hi.winv, hl.inv, fun k => ?_⟩
-  rw [hl.map k]
-  exact hi.link k
+  obtain ⟨hgood, hfresh⟩ := wf_good hnum hwf
+  have hi := (history_lines O P h WState.new (st0 fn) (by rw [st0_store]; exact inv_new O _) hgood
+    (by rw [st0_units]; exact hfresh)).2
+  exact ⟨hi.winv, hi.link.inv, hi.link.map⟩
 
 /-! ## 3. The round trip -/
 
-theorem readAll_lines (O : Oracles) (fn : Bytes) (ls : List Bytes) (hc : ∀ l ∈ ls, Clean l) :
-    (readAll O fn (render ls)).map aobsRec =
-      ((runLines O (displayName fn) [] [] 1 ls).2.2).map aobsS := by
-  have h := (C02.reader_refines_spec O fn (render ls)).1
-  have e1 : (readAll O fn (render ls)).map aobsRec = ((readAll O fn (render ls)).map Rec.abs).map aobsA := by
-    rw [List.map_map]; exact List.map_congr_left (fun r _ => aobsRec_eq r)
-  rw [e1, h, List.map_map]
-  unfold Spec.Format.read
-  rw [lines_render ls hc, readFrom_eq_runLines]
-  exact List.map_congr_left (fun r _ => (aobsS_eq r).symm)
+theorem clean_noLF {ls : List Bytes} (h : ∀ l ∈ ls, Clean l) : ∀ l ∈ ls, Bytes.hasByte l 10 = false :=
+  fun l hl => (h l hl).1
 
 /-- **roundtrip_history.** For every finite history `h` of results, unit-metadata records and
 syntax errors that is well formed (`WF`) — keys added, changed, deleted, re-added, switched
 between file and internal from one result to the next in any order; any measurement bits
-(zero, ±Inf, NaN, subnormal …), rescaled or not — the C02 model reader applied to the bytes the
+(zero, ±Inf, NaN, subnormal …), rescaled or not — the model reader applied to the BYTES the
 model writer produces delivers exactly `observeWritten h`: the same results in the same order
 with the same name, iteration count, measurements as written and file configuration (as a
 map), the same unit metadata, and nothing else (no error record, no extra record). -/
-theorem roundtrip_history (O : Oracles) (P : WParams) (hnum : NumOK O P) (fn : Bytes) (h : List Rec)
-    (hwf : WF O h = true) :
+theorem roundtrip_history (O : Oracles) (P : WParams) (fn : Bytes) (h : List Rec)
+    (hnum : NumOKFor O P h) (hwf : WF O h = true) :
     (observeRead (readAll O fn (render (Writer.writeAll P h)))).map Obs.abs =
       (observeWritten h).map Obs.abs := by
   simp only [WF, Bool.and_eq_true, Bool.not_eq_true'] at hwf
   obtain ⟨hwf, hcr⟩ := hwf
-  obtain ⟨hgood, hfresh⟩ := wf_good hnum (displayName fn) hwf
+  obtain ⟨hgood, hfresh⟩ := wf_good hnum hwf
   have hclean : ∀ l ∈ Writer.writeAll P h, Clean l :=
-    history_clean O P hnum h WState.new (fun k hk => by simp [WState.new] at hk) (wf_recs hwf).1 hcr
+    history_clean O P h WState.new hnum (fun k hk => by simp [WState.new] at hk) (wf_recs hwf).1 hcr
+  have hread : readAll O fn (render (Writer.writeAll P h)) = readLines O (st0 fn) (Writer.writeAll P h) := by
+    unfold readAll st0
+    rw [splitLines_render _ hclean]
   -- the read-back side: Config lists have distinct keys, so they are maps
-  have hnd := (C02.reader_refines_spec O fn (render (Writer.writeAll P h))).2.1
+  have hok := readLines_wf O (Writer.writeAll P h) (st0 fn) (by rw [st0_store]; exact Store.inv_reset _)
+    (by rw [st0_store]; exact sgood_reset _ _) (clean_noLF hclean)
   have e1 : (observeRead (readAll O fn (render (Writer.writeAll P h)))).map Obs.abs =
-      (readAll O fn (render (Writer.writeAll P h))).map aobsRec := by
+      (readLines O (st0 fn) (Writer.writeAll P h)).map aobsRec := by
+    rw [hread]
     unfold observeRead
     rw [List.map_map]
     apply List.map_congr_left
     intro r hr
-    exact obs_abs_rec r (fun res e => hnd res (e ▸ hr))
+    apply obs_abs_rec r
+    intro res e
+    have := hok r hr
+    rw [e] at this
+    simp only [recOKnoCR, resOKnoCR, Bool.and_eq_true] at this
+    exact distinct_nodup _ this.1.1.1.1
   -- the written side
   have e2 : (observeWritten h).map Obs.abs = (kept h).map aobsRec := by
     rw [observeWritten_eq, List.map_map]
@@ -172,53 +166,36 @@ theorem roundtrip_history (O : Oracles) (P : WParams) (hnum : NumOK O P) (fn : B
     rw [e] at this
     simp only [recOKnoCR, resOKnoCR, Bool.and_eq_true] at this
     exact distinct_nodup _ this.1.1.1.1
-  rw [e1, e2, readAll_lines O fn _ hclean]
-  exact history_lines O P (displayName fn) h WState.new [] [] 1 (inv_new O _) hgood hfresh
+  rw [e1, e2]
+  exact (history_lines O P h WState.new (st0 fn) (by rw [st0_store]; exact inv_new O _) hgood
+    (by rw [st0_units]; exact hfresh)).1
 
 /-- Same round trip one level up: at the level of LINES the CR clause is not needed — the
-line-structured specification reader of C02 applied to the printed lines gives `h` back for
-every history satisfying `WFnoCR`. (The CR clause matters only when lines are joined with LF
-and split again: N1.) -/
-theorem roundtrip_lines (O : Oracles) (P : WParams) (hnum : NumOK O P) (fn : Bytes) (h : List Rec)
-    (hwf : WFnoCR O h = true) :
-    ((readFrom O fn [] [] 1 (Writer.writeAll P h)).1).map aobsS = (kept h).map aobsRec := by
-  obtain ⟨hgood, hfresh⟩ := wf_good hnum fn hwf
-  rw [readFrom_eq_runLines]
-  exact history_lines O P fn h WState.new [] [] 1 (inv_new O _) hgood hfresh
+model reader fed with the printed lines gives `h` back for every history satisfying `WFnoCR`.
+(The CR clause matters only when lines are joined with LF and split again: N1.) -/
+theorem roundtrip_lines (O : Oracles) (P : WParams) (fn : Bytes) (h : List Rec)
+    (hnum : NumOKFor O P h) (hwf : WFnoCR O h = true) :
+    (readLines O (st0 fn) (Writer.writeAll P h)).map aobsRec = (kept h).map aobsRec := by
+  obtain ⟨hgood, hfresh⟩ := wf_good hnum hwf
+  exact (history_lines O P h WState.new (st0 fn) (by rw [st0_store]; exact inv_new O _) hgood
+    (by rw [st0_units]; exact hfresh)).1
 
 /-! ## 4. Internal configuration never reappears as file configuration -/
-
-theorem cfgGet_of_mem {config : List Cfg} (hnd : (config.map Cfg.key).Nodup) {c : Cfg} (hc : c ∈ config) :
-    cfgGet config c.key = some (c.value, c.file) := by
-  induction config with
-  | nil => simp at hc
-  | cons x xs ih =>
-    simp only [List.map_cons, List.nodup_cons] at hnd
-    rw [cfgGet_cons]
-    simp only [List.mem_cons] at hc
-    rcases hc with hc | hc
-    · subst hc; simp
-    · have hne : x.key ≠ c.key := by
-        intro e
-        apply hnd.1
-        rw [e]
-        exact List.mem_map.2 ⟨c, hc, rfl⟩
-      simp only [hne, ↓reduceIte]
-      exact ih hnd.2 hc
 
 /-- **internal_never_file.** In the round trip of a well-formed history, take the i-th record
 written, a result `r`, and the i-th record read back (it exists and is a result `r'`): no key
 that is internal configuration in `r` is file configuration in `r'` — whatever the key was in
 earlier records (file configuration with the same value included: the case repaired by
 40348e7). -/
-theorem internal_never_file (O : Oracles) (P : WParams) (hnum : NumOK O P) (fn : Bytes) (h : List Rec)
-    (hwf : WF O h = true) (i : Nat) (r : Res) (hi : (kept h)[i]? = some (.result r)) :
+theorem internal_never_file (O : Oracles) (P : WParams) (fn : Bytes) (h : List Rec)
+    (hnum : NumOKFor O P h) (hwf : WF O h = true) (i : Nat) (r : Res)
+    (hi : (kept h)[i]? = some (.result r)) :
     ∃ r', (readAll O fn (render (Writer.writeAll P h)))[i]? = some (.result r') ∧
       ∀ c ∈ r.config, c.file = false → ∀ c' ∈ r'.config, c'.key = c.key → c'.file = false := by
-  have hrt := roundtrip_history O P hnum fn h hwf
+  have hrt := roundtrip_history O P fn h hnum hwf
   have hwf' := hwf
   simp only [WF, Bool.and_eq_true, Bool.not_eq_true'] at hwf'
-  have hnd := (C02.reader_refines_spec O fn (render (Writer.writeAll P h))).2.1
+  have hrwf := reader_results_WF O fn (render (Writer.writeAll P h))
   rw [observeWritten_eq] at hrt
   unfold observeRead at hrt
   simp only [List.map_map] at hrt
@@ -239,7 +216,10 @@ theorem internal_never_file (O : Oracles) (P : WParams) (hnum : NumOK O P) (fn :
     | unit u => simp [observe, Obs.abs] at hi'
     | result r' =>
       refine ⟨r', rfl, fun c hc hf c' hc' hk => ?_⟩
-      have hnd' := hnd r' hmem
+      have hnd' : (r'.config.map Cfg.key).Nodup := by
+        have := (wf_recs hrwf).1 _ hmem
+        simp only [recOKnoCR, resOKnoCR, Bool.and_eq_true] at this
+        exact distinct_nodup _ this.1.1.1.1
       have e1 := obs_abs_rec (.result r') (fun res e => by injection e with e; subst e; exact hnd')
       have e2 := obs_abs_rec (.result r) (fun res e => by injection e with e; subst e; exact hrnd)
       simp only [Function.comp_apply] at hi'
@@ -247,28 +227,123 @@ theorem internal_never_file (O : Oracles) (P : WParams) (hnum : NumOK O P) (fn :
       simp only [aobsRec, AObs.result.injEq] at hi'
       have hfm := congrFun hi'.2.2.2 c.key
       unfold fmOf at hfm
-      rw [cfgGet_of_mem hrnd hc, hf, ← hk, cfgGet_of_mem hnd' hc'] at hfm
+      rw [cfgGet_of_mem' hrnd hc, hf, ← hk, cfgGet_of_mem' hnd' hc'] at hfm
       cases hcf : c'.file with
       | false => rfl
       | true => rw [hcf] at hfm; simp at hfm
 
 /-! ## 5. Texts -/
 
-/-- **roundtrip_text_partial.** Parsing a text, writing the records and parsing the output
-again gives the same observation stream as the first parse. PARTIAL: the hypothesis
-`WF O (readAll O fn t)` stands for two things —
-(a) `reader_results_WF` (NOT proved): every stream the model reader emits satisfies `WFnoCR`
-    (keys it accepted are `keyOK`, fields it split off are `tokenOK`, values non-empty without
-    leading blank, unit metadata distinct …); the converse direction of `C01Tokens.lean`.
-    The check run evaluates `WFnoCR` on every reader-produced history (kind=text/filter): a
-    counterexample would surface as an S-layer hit;
-(b) `NoCRValue t`: no file-configuration value of the parsed stream ends in CR — without it the
-    statement is false on the current code (known finding N1, witness `k: v\r\r\n`). -/
-theorem roundtrip_text_partial (O : Oracles) (P : WParams) (hnum : NumOK O P) (fn fn' : Bytes) (t : Bytes)
-    (hwf : WF O (readAll O fn t) = true) :
+/-- **reader_results_WF** (restated): whatever the text, the stream the reader delivers
+satisfies every clause of `WF` but (possibly) the CR clause: keys it accepted are `keyOK`,
+fields it split off are `tokenOK`, values are non-empty without LF and without leading
+blank/tab, `Config` keys are pairwise distinct, every result has a measurement, unit metadata
+is well formed and no (tidied unit, key) setting is delivered twice. -/
+theorem reader_results_WF' (O : Oracles) (fn text : Bytes) : WFnoCR O (readAll O fn text) = true :=
+  reader_results_WF O fn text
+
+/-- no file-configuration value of the parsed stream ends in CR (the complement of class N1) -/
+def NoCRValue (O : Oracles) (fn t : Bytes) : Prop := hasCRValue (readAll O fn t) = false
+
+/-- **roundtrip_text.** For EVERY text `t` whose parsed `key: value` values do not end in CR:
+parse, write, parse again — the second parse observes exactly what the first one delivered
+(results with names, iteration counts, measurements as written, file configuration; unit
+metadata; syntax errors of the input are dropped, none is added). Without `NoCRValue` the
+statement is false on the current code (N1: `k: v\r\r\n`). -/
+theorem roundtrip_text (O : Oracles) (P : WParams) (fn fn' : Bytes) (t : Bytes)
+    (hnum : NumOKFor O P (readAll O fn t)) (hcr : NoCRValue O fn t) :
     (observeRead (readAll O fn' (render (Writer.writeAll P (readAll O fn t))))).map Obs.abs =
-      (observeWritten (readAll O fn t)).map Obs.abs :=
-  roundtrip_history O P hnum fn' (readAll O fn t) hwf
+      (observeWritten (readAll O fn t)).map Obs.abs := by
+  apply roundtrip_history O P fn' (readAll O fn t) hnum
+  simp only [WF, Bool.and_eq_true, Bool.not_eq_true']
+  exact ⟨reader_results_WF O fn t, hcr⟩
+
+/-! ## 5b. What the writer prints for internal keys, and why the reader is not disturbed -/
+
+/-- Every line of a configuration block is a blank line, the line `key:` for a key the writer
+knows, or `key: value` with the value of a FILE entry of the record being written: an internal
+entry never contributes a `key: value` line. -/
+theorem config_block_lines (w : WState) (config : List Cfg) :
+    ∀ l ∈ (writeFileConfig w config).2,
+      l = [] ∨ (∃ k ∈ w.order, l = delLine k) ∨
+      (∃ k c, c ∈ config ∧ c.file = true ∧ l = kvLine k c.value) := by
+  intro l hl
+  obtain ⟨_, w2⟩ := walk_sub config w.order w.fileConfig
+  obtain ⟨_, n2⟩ := newKeys_sub config (walk config w.order w.fileConfig).2.1 (walk config w.order w.fileConfig).1
+  unfold writeFileConfig at hl
+  simp only [List.mem_append, List.mem_singleton] at hl
+  rcases hl with ((hl | hl) | hl) | hl
+  · split at hl
+    · simp only [List.mem_singleton] at hl; exact Or.inl hl
+    · simp at hl
+  · rcases w2 l hl with ⟨k, hk, e⟩ | ⟨k, _, c, hc, hf, e⟩
+    · exact Or.inr (Or.inl ⟨k, hk, e⟩)
+    · exact Or.inr (Or.inr ⟨k, c, hc, hf, e⟩)
+  · split at hl
+    · obtain ⟨c, hc, hf, e⟩ := n2 l hl
+      exact Or.inr (Or.inr ⟨c.key, c, hc, hf, e⟩)
+    · simp at hl
+  · exact Or.inl hl
+
+/-- What the writer prints for a key it holds as INTERNAL configuration:
+the line `key:` when the key has disappeared from the result, nothing when it is still internal
+(changed or not), `key: value` only when it has become file configuration. -/
+theorem internal_key_lines (config : List Cfg) (fc : FC) (k v : Bytes) (hk : fc.get k = some (v, false)) :
+    (cfgAt config k = none → (walk config [k] fc).2.2 = [delLine k]) ∧
+    (∀ c, cfgAt config k = some c → c.file = false → (walk config [k] fc).2.2 = []) ∧
+    (∀ c, cfgAt config k = some c → c.file = true → (walk config [k] fc).2.2 = [kvLine k c.value]) := by
+  refine ⟨fun h => by simp [walk, h], fun c h hf => ?_, fun c h hf => ?_⟩
+  · simp only [walk, h, hk, Option.getD_some, hf]
+    split <;> simp
+  · simp only [walk, h, hk, Option.getD_some, hf]
+    simp
+
+/-- Why that `key:` line does not disturb a reader: for an internal key satisfying the `WF`
+clause `internalKeyOK`, the line delivers no record, leaves unit metadata alone and leaves the
+reader's configuration — which does not hold the key, internal configuration never having been
+printed — exactly as it was (the line is either ignored outright, e.g. `.file:`, or deletes a
+key that is not there). -/
+theorem internal_delete_line_harmless (O : Oracles) (k : Bytes) (hk : internalKeyOK O k = true)
+    (st : RState) (hi : st.store.Inv) (hnone : st.store.toMap k = none) :
+    (scanLine O st (delLine k)).2 = [] ∧ (scanLine O st (delLine k)).1.units = st.units ∧
+    (scanLine O st (delLine k)).1.store.Inv ∧
+    ∀ k', (scanLine O st (delLine k)).1.store.toMap k' = st.store.toMap k' := by
+  rcases delOk_of_internal O hk with hd | hd
+  · rw [hd st]
+    refine ⟨rfl, rfl, (Store.set_spec hi k [] true).1, fun k' => ?_⟩
+    simp only
+    rw [toMap_set hi]
+    by_cases hkk : k' = k
+    · subst hkk; simp [hnone]
+    · simp [hkk]
+  · rw [hd st]
+    exact ⟨rfl, rfl, hi, fun _ => rfl⟩
+
+/-! ## 5c. An instance of the number hypothesis -/
+
+/-- **roundtrip_history_spec_numbers.** The round trip with the number parameters instantiated
+by SPECIFICATIONS: the reader's `Atoi`/`atof` are C03's `parseIntSpec`/`parseFloatSpec`, the
+writer's `%v` is `Spec.FmtFloat.fmtNumSpec` (the shortest decimal in `%e`/`%f` shape that parses
+back), `%d` is `fmtInt`. The hypothesis on numbers is then the DECIDABLE check `numCheck h`
+(every iteration count survives `%d`/`Atoi`, and the search for the shortest text succeeds for
+every measurement of `h`) — the correspondence run observes exactly this for every value it
+generates, by comparing `fmtNumSpec` with Go's `%v`. -/
+theorem roundtrip_history_spec_numbers (uc : UC) (tidy : UInt64 → Bytes → UInt64 × Bytes) (fn : Bytes)
+    (h : List Rec) (hwf : WF (specOracles uc tidy) h = true) (hnum : numCheck h = true) :
+    (observeRead (readAll (specOracles uc tidy) fn (render (Writer.writeAll specParams h)))).map Obs.abs =
+      (observeWritten h).map Obs.abs :=
+  roundtrip_history (specOracles uc tidy) specParams fn h (numOKFor_of_check uc tidy h hnum) hwf
+
+/-- the same for texts: parse (with the specification parsers), write (with the specification of
+`%v`), parse again -/
+theorem roundtrip_text_spec_numbers (uc : UC) (tidy : UInt64 → Bytes → UInt64 × Bytes) (fn fn' t : Bytes)
+    (hnum : numCheck (readAll (specOracles uc tidy) fn t) = true)
+    (hcr : NoCRValue (specOracles uc tidy) fn t) :
+    (observeRead (readAll (specOracles uc tidy) fn'
+        (render (Writer.writeAll specParams (readAll (specOracles uc tidy) fn t))))).map Obs.abs =
+      (observeWritten (readAll (specOracles uc tidy) fn t)).map Obs.abs :=
+  roundtrip_text (specOracles uc tidy) specParams fn fn' t
+    (numOKFor_of_check uc tidy _ hnum) hcr
 
 /-! ## 6. Non-vacuity -/
 
@@ -305,5 +380,20 @@ example :
 example :
     WFnoCR anyOracles [exRes [⟨[107], [118, 13], true⟩]] = true ∧
     WF anyOracles [exRes [⟨[107], [118, 13], true⟩]] = false := by decide
+
+/-- the number hypothesis holds for the example history under the specification oracles, and
+so do all hypotheses of `roundtrip_history_spec_numbers` -/
+example : numCheck exHistory = true ∧ WF (specOracles UC.ascii fun v u => (v, u)) exHistory = true := by
+  decide +kernel
+
+/-- special values: what the specification of `%v` prints, and that it parses back -/
+example :
+    (fmtNumSpec? 0x7FF8000000000123 = some [78, 97, 78]) ∧                -- NaN (payload dropped)
+    (fmtNumSpec? 0xFFF0000000000000 = some [45, 73, 110, 102]) ∧          -- -Inf
+    (fmtNumSpec? 0x8000000000000000 = some [45, 48]) ∧                    -- -0
+    (fmtNumSpec? 0x0000000000000001 = some [53, 101, 45, 51, 50, 52]) ∧   -- 5e-324
+    (fmtNumSpec? 0x412E848000000000 = some [49, 101, 43, 48, 54]) ∧       -- 1e+06
+    (fmtNumSpec? 0x3FD3333333333334 = some [48, 46, 51, 48, 48, 48, 48, 48, 48, 48, 48, 48, 48, 48, 48, 48, 48, 48, 52]) := by
+  decide +kernel
 
 end C01
